@@ -1440,8 +1440,13 @@ fn in_writer_fragment(c: &ClassFile) -> bool {
 /// `Dynamic` constants nested within the reader's depth limit for bootstrap arguments, `Uninitialized` labels of stack map frames on instructions, every target an instruction, at most 32767 bytes by the syntactic
 /// bound (longest form of every instruction), exception ranges `start < n`, `end <= n`, `handler < n`, line entries on instructions,
 /// local variables `None` or non-empty with exactly one of descriptor / signature per entry and descriptor entries first, ranges
-/// `start < n`, `start <= end <= n`, type-annotation targets on instructions, no unknown attributes, fewer than 65535 label references
+/// `start < n`, `start <= end <= n`, type-annotation targets on instructions, unknown attributes not named like an attribute the reader
+/// interprets inside `Code` (`Spec.codeAttrNames`; they are written since the repair "class writer writes the unknown attributes of a
+/// method body"), fewer than 65535 label references
+const CODE_ATTR_NAMES: [&str; 7] = ["StackMapTable", "StackMap", "LineNumberTable", "LocalVariableTable", "LocalVariableTypeTable",
+	"RuntimeVisibleTypeAnnotations", "RuntimeInvisibleTypeAnnotations"];
 fn code_in_fragment(c: &duke::tree::method::code::Code) -> bool {
+	if c.attributes.iter().any(|a| CODE_ATTR_NAMES.iter().any(|n| a.name.as_bytes() == n.as_bytes())) { return false }
 	let Ok(s) = fvh::c01facts::code(c, true) else { return false };
 	rcode_ok(&s).unwrap_or(false)
 }
@@ -1457,7 +1462,7 @@ fn loadable_depth(l: &Sexp) -> R<usize> {
 
 fn rcode_ok(s: &Sexp) -> R<bool> {
 	let it = s.as_list()?;
-	let [_, _max_stack, _max_locals, insns, exc, _last, lines, locals, rvta, ritva, attrs] = it else { return Err("code shape".into()) };
+	let [_, _max_stack, _max_locals, insns, exc, _last, lines, locals, rvta, ritva, _attrs] = it else { return Err("code shape".into()) };
 	let insns = insns.as_list()?;
 	let n = insns.len();
 	let (mut size, mut refs) = (0usize, 0usize);
@@ -1537,7 +1542,6 @@ fn rcode_ok(s: &Sexp) -> R<bool> {
 			}
 		}
 	}
-	if !attrs.as_list()?.is_empty() { return Ok(false) }
 	Ok(refs < 65535)
 }
 
@@ -2412,8 +2416,8 @@ fn gen_class_write(r: &mut Rng, thorough: bool, out: &mut Out) {
 			out.op("oracle-class-write-read", &[hex(&bytes)]);
 		}
 	}
-	// classes of the fragment with method bodies: stack map frames kept in every second class, `invokedynamic` / `Dynamic` constants kept, no unknown
-	// attributes of `Code`, local variables with descriptor entries first; half of them assembled in source order (then the tables are
+	// classes of the fragment with method bodies: stack map frames kept in every second class, `invokedynamic` / `Dynamic` constants kept, unknown
+	// attributes of `Code` kept (written since the repair of `write_code`), local variables with descriptor entries first; half of them assembled in source order (then the tables are
 	// read back in the order the writer emits them), the others under a random encoding (forms, pool order, attribute order, split tables)
 	let n_code = if thorough { 4000 } else { 250 };
 	let mut made = 0;
@@ -2426,6 +2430,7 @@ fn gen_class_write(r: &mut Rng, thorough: bool, out: &mut Out) {
 		if !f.methods.iter().any(|m| m.code.is_some()) { continue }
 		if r.chance(1, 2) { f.records.clear(); f.module = None; }
 		let (mut n_insns, mut n_branch, mut n_exc, mut n_switch, mut n_pool, mut n_frames, mut n_indy, mut n_condy) = (0u64, 0u64, 0u64, 0u64, 0u64, 0u64, 0u64, 0u64);
+		let mut n_unknown = 0u64;
 		let keep_frames = r.chance(1, 2);
 		for m in &mut f.methods {
 			let Some(c) = &mut m.code else { continue };
@@ -2445,7 +2450,11 @@ fn gen_class_write(r: &mut Rng, thorough: bool, out: &mut Out) {
 				}
 			}
 			n_exc += c.exceptions.len() as u64;
-			c.attrs.clear();
+			// every second body without any gets one, so that the written-last loop of `write_code` is exercised in most classes
+			if c.attrs.is_empty() && r.chance(1, 2) {
+				c.attrs.push((r.pick(&["Foo", "org.example.Custom", "", "LineNumberTabl"]).chars().map(|ch| ch as u32).collect(), (0..r.below(6)).map(|_| r.below(256) as u8).collect()));
+			}
+			n_unknown += c.attrs.len() as u64;
 			if let Some(v) = &mut c.locals {
 				v.sort_by_key(|lv| lv.sig.is_some());
 				if v.is_empty() { c.locals = None; }
@@ -2465,6 +2474,8 @@ fn gen_class_write(r: &mut Rng, thorough: bool, out: &mut Out) {
 		out.stats.add("class-write:fragment-code:stack-map-frames", n_frames);
 		out.stats.add("class-write:fragment-code:invokedynamic", n_indy);
 		out.stats.add("class-write:fragment-code:ldc-Dynamic", n_condy);
+		out.stats.add("class-write:fragment-code:unknown-Code-attributes", n_unknown);
+		if n_unknown > 0 { out.stats.hit("class-write:fragment-code:class-with-unknown-Code-attribute"); }
 		out.op("class-write", &[hex(&bytes)]);
 		out.op("oracle-class-write-read", &[hex(&bytes)]);
 	}
